@@ -22,7 +22,7 @@ ASSUMPTIONS = ["at least one row; packed dtypes; header keys are strings other t
                "header values are finite Python literals (no NaN)"]
 REQUIRED = {"quick": {"C01.file": 1000, "C01.read": 6000, "C01.header": 2500},
             "thorough": {"C01.file": 10000, "C01.read": 70000, "C01.header": 25000}}
-WROUTES = ["sfile.write", "SFile.write", "io.write", "Recfile.write", "recfile.write"]
+WROUTES = ["sfile.write", "SFile.write", "io.write", "Recfile.write", "recfile.write", "sfile.write+append-new", "io.write+append-new"]
 
 
 BOUNDARIES = [512, 1024, 2048, 4096, 8192, 12288, 16384, 65536]
@@ -32,7 +32,7 @@ def cases(seed, tier):
     n = 640 if tier == "quick" else 9600
     rng = np.random.default_rng([seed, 1])
     for i in range(n):
-        yield {"family": ["dtype-zoo", "headers", "rows", "layout"][i % 4], "wroute": WROUTES[(i // 4) % 5],
+        yield {"family": ["dtype-zoo", "headers", "rows", "layout"][i % 4], "wroute": WROUTES[(i // 4) % len(WROUTES)],
                "sub": int(rng.integers(0, 2**31))}
     # header lengths swept across the block sizes a buffered reader might use
     reps = 1 if tier == "quick" else 6
@@ -181,6 +181,8 @@ def run_case(case):
     d = os.environ.get("VERIF_CASEDIR", ".")
     path = os.path.join(d, "c01_%d.rec" % case["_i"])
     raw_route = wroute in ("Recfile.write", "recfile.write")
+    if os.path.exists(path):
+        os.unlink(path)
     COL.sample({"family": fam, "wroute": wroute, "descr": repr(table.dtype.descr)[:160], "nrows": int(table.size),
                 "header": repr(header)[:120], "layout": layout}, limit=8)
     wit = {"descr": repr(table.dtype.descr)[:400], "nrows": int(table.size), "header": repr(header)[:400], "layout": layout,
@@ -197,6 +199,11 @@ def run_case(case):
                 sf.write(data, header=header)
         elif wroute == "io.write":
             eio.write(path, data, header=header)
+        elif wroute == "sfile.write+append-new":
+            # append=True on a path that does not exist yet is documented to be an ordinary write
+            sfile.write(path, data, header=header, append=True)
+        elif wroute == "io.write+append-new":
+            eio.write(path, data, header=header, append=True)
         elif wroute == "Recfile.write":
             with recfile.Recfile(path, "w") as rf:
                 rf.write(data)
